@@ -251,7 +251,7 @@ func EscAttrU(s string, lo, hi int, ent bool) bseq {
 //@ fold EscAttrU piece specPieceAttrU
 
 //@ func attributeEscape
-//@   props C05 C13 C07
+//@   props C05 C13 C07 C06
 //@   opt writerprop C13
 //@   requires !wfailed(w)
 //@   ensures[C13] result != nil ==> wfailed(w) && result == werr(w)
@@ -260,6 +260,9 @@ func EscAttrU(s string, lo, hi int, ent bool) bseq {
 //@   ensures[C07] result == nil && quoted && escapeEntities ==> wout(w) == cat(old(wout(w)), EscHTML(s, 0, len(s)))
 //@   ensures[C07] result == nil && quoted && !escapeEntities ==> wout(w) == cat(old(wout(w)), EscHTMLNoEnt(s, 0, len(s)))
 //@   ensures[C07] result == nil && !quoted ==> wout(w) == cat(old(wout(w)), EscAttrU(s, 0, len(s), escapeEntities))
+//@   ensures[C06] result == nil && quoted && escapeEntities ==> wout(w) == cat(old(wout(w)), EscHTML(s, 0, len(s)))
+//@   ensures[C06] result == nil && quoted && !escapeEntities ==> wout(w) == cat(old(wout(w)), EscHTMLNoEnt(s, 0, len(s)))
+//@   ensures[C06] result == nil && !quoted ==> wout(w) == cat(old(wout(w)), EscAttrU(s, 0, len(s), escapeEntities))
 //@   split 0, last, len(s)
 //@   loop 0
 //@     invariant 0 <= last && last <= i && i <= len(s)
